@@ -366,6 +366,8 @@ ASSUMPTIONS = [
     "A6 warnings.warn does not raise",
 ]
 NOT_COVERED = {
+    "C18": ["GenBank features grouped by locus tag under permutation of records (io/genbank/parser.py does not import "
+            "here; Biopython feature objects)", "io/gff3/parser.py:filter_and_sort_qualifiers"],
     "C01": ["CompoundInterval.relative_interval_to_parent_location and CompoundInterval._location_relative_to "
             "(block-list rebuild followed by constructor re-sort / optimize_blocks): no unbounded contract yet",
             "overlapping-block layouts for the interval forms"],
@@ -379,7 +381,9 @@ def match_known(known, o):
     for k in known:
         if k.get("status") != "known":
             continue
-        if k.get("case") == o["case"] and k.get("obligation") == o["name"]:
+        # carve-outs are applied inside the proof, so a refutation that survives them is a NEW violation; only a
+        # refutation on exactly the stored witness is the listed finding
+        if k.get("case") == o["case"] and k.get("obligation") == o["name"] and k.get("witness") == o.get("prims"):
             return k
     return None
 
